@@ -5,3 +5,4 @@ pub mod cmp;
 #[cfg(feature = "serde")]
 pub mod serde_eng;
 pub mod uninit;
+pub mod ctor;
